@@ -3,6 +3,7 @@ package main
 import (
 	"bytes"
 	"fmt"
+	"io"
 	"sort"
 	"strings"
 
@@ -113,6 +114,28 @@ func init() {
 			info, err := header.Read(rd)
 			if err != nil {
 				return errKind(err)
+			}
+			if f["twice"] != "" {
+				// the answer must not depend on what the caller did with earlier answers: read every
+				// table, use the result (write a new container from it: Write patches the head table
+				// it is given in place) and scribble over it, then read again
+				first := map[string][]byte{}
+				for k := range info.Toc {
+					b, err := info.ReadTableBytes(rd, k)
+					if err != nil {
+						return "err:table:" + hx([]byte(k))
+					}
+					first[k] = b
+				}
+				header.Write(io.Discard, info.ScalerType, first)
+				for _, b := range first {
+					for i := range b {
+						b[i] ^= 0xA5
+					}
+				}
+				if !bytes.Equal(data, f.Hex("file")) {
+					return "file-changed"
+				}
 			}
 			out := map[string]string{}
 			for k := range info.Toc {
@@ -345,6 +368,7 @@ func headerCase(c *Ctx, sc uint32, tabs map[string][]byte, inDomain bool) {
 	c.Case(Verdict, "header.read", "file="+file, nontriv)
 	if len(tabs) <= 280 && (sc == header.ScalerTypeTrueType || sc == header.ScalerTypeCFF || sc == header.ScalerTypeApple) {
 		c.Case(Direct, "header.readback", "file="+file+" want="+want, nontriv)
+		c.Case(Direct, "header.readback", "file="+file+" want="+want+" twice=1", nontriv)
 	}
 	// malformed stream for the reader: mutate the written file
 	data := mustHex(file)
